@@ -79,14 +79,14 @@ PROPS = {
         "level": "proof",
         "harness": ["gwrun", "purediff"],
         "stages": [("pure", stage_pure, {"suites": ["ressub"], "n_quick": 4000, "n_thorough": 60000}),
-                   ("gw", stage_gw, {"profiles": [("basic", 150, 1000), ("refs", 350, 3000), ("churn", 350, 3000), ("access", 200, 1500), ("scacc", 250, 2000), ("reset", 250, 1500), ("accrefs", 200, 1500), ("query", 150, 1000), ("wild", 0, 1500)]})],
+                   ("gw", stage_gw, {"profiles": [("basic", 150, 1000), ("refs", 350, 3000), ("churn", 350, 3000), ("access", 200, 1500), ("scacc", 250, 2000), ("reset", 250, 1500), ("accrefs", 200, 1500), ("query", 150, 1000), ("legacy", 250, 2000), ("legacyacc", 150, 1000), ("wild", 0, 1500)]})],
         "rule": "random histories of the real gateway under the harness scheduler (every connection task, cache task and hooked goroutine "
                 "granted one at a time): 2 clients, 3-4 resources with reference graphs (sharing, cycles, self references), "
                 "subscribe/unsubscribe/get, service change/add/remove/custom events made unique by a fresh tag, answers in any order; "
                 "the Coq monitor (Spec/Monitors.v) rebuilds each client's copy from frames and compares it with the service truth at every "
                 "quiescent point; non-trivial = more than 4 client frames and at least one quiescent point; plus direct-drive op sequences on one cached resource",
         "assumptions": ["consistent service: answers come from the truth at answer time, every mutation of a subscribed resource is announced by an event, per-resource order is preserved",
-                        "protocol 1.2.1 clients only in this stage"],
+                        "WebSocket clients negotiate 1.2.1, 1.2.0, 1.1.1 or send no version request (legacy profiles); the legacy call/auth response format of 1.1.1 is not exercised"],
         "technique": "Coq proof (single-resource convergence over all schedules, Comp/Conv.v; cache-side model ResSub) + Coq monitor `monitor` (extracted) evaluated on scheduled traces of the real gateway + direct-drive correspondence of the cache side",
         "level_text": "The single-resource core (cache versioning, subscriber queue, late snapshots) is proved for all schedules; the graph-wide statement is the extracted Coq monitor evaluated on explored histories of the real code",
         "level_note": "trusted: Coq kernel, extraction, the harness (mock messaging system, consistent mock service, scheduler hooks, frame abstraction in harness/internal/gw); task atomicity (DESIGN section 4); modelled not verified: encoding/json, gorilla/websocket",
@@ -95,7 +95,7 @@ PROPS = {
         "coq": ["Props/C02.v"],
         "level": "proof",
         "harness": ["gwrun"],
-        "stages": [("gw", stage_gw, {"profiles": [("refs", 400, 4000), ("churn", 400, 4000), ("accrefs", 300, 2000), ("reset", 250, 1500), ("access", 200, 1000), ("gets", 0, 1500), ("wild", 0, 1500)]})],
+        "stages": [("gw", stage_gw, {"profiles": [("refs", 400, 4000), ("churn", 400, 4000), ("accrefs", 300, 2000), ("reset", 250, 1500), ("access", 200, 1000), ("legacy", 200, 1500), ("gets", 0, 1500), ("wild", 0, 1500)]})],
         "rule": "as C01 with reference-changing events and unsubscribes; the reference client (Spec/Client.v) retains what is reachable from "
                 "direct subscriptions and outstanding subscribe/get requests; after every frame: no dangling reference, no event for an "
                 "unheld resource, right kind, index in range; non-trivial = more than 4 client frames and a quiescent point",
@@ -108,7 +108,7 @@ PROPS = {
         "coq": ["Props/C03.v"],
         "level": "proof",
         "harness": ["gwrun"],
-        "stages": [("gw", stage_gw, {"profiles": [("basic", 200, 2000), ("refs", 300, 3000), ("churn", 300, 3000), ("access", 250, 2000), ("scacc", 250, 2000), ("reset", 300, 2000), ("accrefs", 200, 1500), ("wild", 0, 1500)]})],
+        "stages": [("gw", stage_gw, {"profiles": [("basic", 200, 2000), ("refs", 300, 3000), ("churn", 300, 3000), ("access", 250, 2000), ("scacc", 250, 2000), ("reset", 300, 2000), ("accrefs", 200, 1500), ("legacy", 200, 1500), ("wild", 0, 1500)]})],
         "rule": "as C01; every service event carries a unique tag; per client and resource the delivered events must be a contiguous run "
                 "of the service stream (candidate-position tracking, no false alarm on repeated identical events), nothing missing at quiescence",
         "assumptions": ["no resets/query events in this stage (superseded events are not exercised)"],
